@@ -273,6 +273,10 @@ FILE_TEXTS = [
     "*=0x008000\n.for i := 0, 8 {\ni := i & 3\n.db i\n}\n", "*=0x008000\n.for i := 0, 4 {\ni := 0\n.db i\n}\n", "*=0x008000\n.for i := 2, 6 {\n.for i := 0, 2 {\n.db i\n}\n}\n",
     "/* page\x0cbreak */\nlda.b #0x01 ; volume\nrts ; end\n", "/* a\x0bb\x1cc\x1dd\x1ee\x85f\u2028g\u2029h */\nnop ; one\nnop ; two\n; three\n", "; lone\rreturn\nnop ; x\n; y\n",
     "/* x */ ; c\x0c d\nnop ; e\n/* \x0c\x0c */\n; f\n; g\n",
+    # a raw-byte escape that is never closed; a named scope directly in the body of a loop in the body of a loop
+    ".table 'tbl_c15.tbl'\n.text 'AB[0x0A'\n", ".table 'tbl_c15.tbl'\n.text 'AB[0x0A0B'\n.text '[0x'\n.text '[0xA'\n", ".ascii 'AB[0x0A'\n",
+    "*=0x008000\n.for row := 0, 2 {\n.for col := 0, 3 {\n.scope cell {\nvalue = row * 3 + col\n.db value\n}\n}\n}\n",
+    "*=0x008000\n.for ra := 0, 2 {\n.for rb := 0, 2 {\n.for rc := 0, 2 {\n.scope cell3 {\nlq:\n.dw lq\n}\n}\n}\n}\n",
     # files named through the parent directory (a binary kept beside or above the project), through . and through dir/..
     ".incbin '../up_c15.bin'\n", "*=0x008000\nlda.w up_c15_bin\n.incbin '../up_c15.bin'\nrts\n", ".incbin '../../up2_c15.bin'\n", ".incbin './exists_c15.s'\n", ".incbin 'sub_c15/../exists_c15.s'\n",
     ".incbin '..'\n", ".incbin '../'\n", ".include '../up_c15.s'\n", ".table '../up_c15.tbl'\n.text 'AB'\n", ".include_ips '../up_c15.ips', 0\n", ".incbin '.../x'\n", ".incbin '..up_c15.bin'\n",
